@@ -786,6 +786,54 @@ func registerBase64Intrinsics(in *Interp) {
 		}
 		return done(bad)
 	}
+	// ---- Ed25519: opaque 64-byte private keys (seed ‖ pseudo public key), ideal deterministic signatures ----
+	edKeyID := func(st *State, pub []Value) int {
+		b := make([]byte, len(pub))
+		for i, v := range pub {
+			if v.(Int).T != nil {
+				unsupported("symbolic Ed25519 key")
+			}
+			b[i] = byte(v.(Int).C)
+		}
+		h := sha256Sum(b)
+		return int(h[0])<<24 | int(h[1])<<16 | int(h[2])<<8 | int(h[3]) | 1<<40
+	}
+	I["crypto/ed25519.NewKeyFromSeed"] = func(st *State, fr *Frame, a []Value, _ ssa.Value) (Value, int) {
+		seed, ok := st.concBytes(a[0].(Slice))
+		if !ok || len(seed) != 32 {
+			unsupported("ed25519.NewKeyFromSeed with symbolic or malformed seed")
+		}
+		pub := sha256Sum(append([]byte("ed25519-public-of:"), seed...))
+		return done(st.newByteSlice(append(append([]byte{}, seed...), pub[:]...)))
+	}
+	I["(crypto/ed25519.PrivateKey).Sign"] = func(st *State, fr *Frame, a []Value, _ ssa.Value) (Value, int) {
+		priv := st.sliceVals(a[0].(Slice))
+		id := edKeyID(st, priv[32:])
+		d := msgDigest(st, a[2].(Slice))
+		st.sigs = append(st.sigs[:len(st.sigs):len(st.sigs)], sigEntry{id, string(d)})
+		return done(Tuple{st.newByteSlice(pseudoSig(id, d, 64)), Iface{}})
+	}
+	I["crypto/ed25519.Sign"] = func(st *State, fr *Frame, a []Value, _ ssa.Value) (Value, int) {
+		priv := st.sliceVals(a[0].(Slice))
+		id := edKeyID(st, priv[32:])
+		d := msgDigest(st, a[1].(Slice))
+		st.sigs = append(st.sigs[:len(st.sigs):len(st.sigs)], sigEntry{id, string(d)})
+		return done(st.newByteSlice(pseudoSig(id, d, 64)))
+	}
+	I["crypto/ed25519.Verify"] = func(st *State, fr *Frame, a []Value, _ ssa.Value) (Value, int) {
+		id := edKeyID(st, st.sliceVals(a[0].(Slice)))
+		d := msgDigest(st, a[1].(Slice))
+		signed := false
+		for _, s := range st.sigs {
+			if s.key == id && s.digest == string(d) {
+				signed = true
+			}
+		}
+		if !signed {
+			return done(Bool{})
+		}
+		return done(mkBoolT(st.bytesEq(a[2].(Slice), st.newByteSlice(pseudoSig(id, d, 64)))))
+	}
 	I["verif:verifNewMLDSAKey"] = func(st *State, fr *Frame, a []Value, _ ssa.Value) (Value, int) {
 		t := st.in.prog.ImportedPackage("filippo.io/mldsa").Type("PrivateKey").Type()
 		return done(Ptr{Obj: st.alloc(t)})
